@@ -22,6 +22,7 @@ func (a Addr) String() string  { return string(a) }
 var ErrInjected = errors.New("netsim: injected read error")
 
 type half struct {
+	holdNext, holding bool // see Stream.HoldNextRead
 	mu        sync.Mutex
 	cond      *sync.Cond
 	buf       []byte
@@ -115,6 +116,15 @@ func (s *Stream) Drain() []byte {
 // Closes returns how often Close was called on this end.
 func (s *Stream) Closes() int { return int(s.closes.Load()) }
 
+// HoldNextRead: the next Read that delivers data hands it to its caller only after the read deadline
+// has been moved into the past or the stream was closed. HoldingRead reports whether one is being held.
+func (s *Stream) HoldNextRead() { s.rd.mu.Lock(); s.rd.holdNext = true; s.rd.mu.Unlock() }
+func (s *Stream) HoldingRead() bool {
+	s.rd.mu.Lock()
+	defer s.rd.mu.Unlock()
+	return s.rd.holding
+}
+
 // TemporaryErr is a transient failure that is not a timeout (ECONNABORTED, EMFILE, ENOBUFS ... on a real
 // socket): net.Error with Temporary() true and Timeout() false.
 type TemporaryErr struct{ What string }
@@ -173,6 +183,17 @@ func (s *Stream) Read(p []byte) (int, error) {
 				if h.plan[0] <= 0 {
 					h.plan = h.plan[1:]
 				}
+			}
+			if h.holdNext {
+				// the read has completed inside the "kernel"; it returns to the caller only once somebody has
+				// moved the read deadline into the past (or closed the stream): a read that finishes at the very
+				// moment a shutdown begins
+				h.holdNext = false
+				h.holding = true
+				for !h.closed && (h.deadline.IsZero() || time.Now().Before(h.deadline)) {
+					h.cond.Wait()
+				}
+				h.holding = false
 			}
 			return n, nil
 		}
